@@ -60,7 +60,7 @@ impl Completions {
         let mut tail = load_kernel_shared(self.entries_tail);
         #[cfg(a10_verif)]
         crate::verif::emit("CqPollBegin", [shared.id(), u64::from(head), u64::from(tail), 0, 0, 0]);
-        if head >= tail {
+        if head == tail {
             // If we have no completions we make a system call to wait for
             // completion events.
             log::trace!(timeout:?; "waiting for completion events");
@@ -78,8 +78,9 @@ impl Completions {
             crate::verif::emit("CqReload", [shared.id(), u64::from(head), u64::from(tail), 0, 0, 0]);
         }
 
-        debug_assert!(tail >= head);
-        while head < tail {
+        // NOTE: the counters are free running and wrap around at `u32::MAX`.
+        debug_assert!(tail.wrapping_sub(head) <= self.entries_len);
+        while head != tail {
             let index = (head & (self.entries_len - 1)) as usize;
             // SAFETY: see below.
             let ptr = unsafe { self.entries.add(index).as_ptr() };
@@ -106,7 +107,7 @@ impl Completions {
             unsafe { completion.process() };
             // NOTE: poisoned before the processing above.
             asan::poison(ptr);
-            head += 1;
+            head = head.wrapping_add(1);
         }
 
         // Let the kernel write more completions.
